@@ -524,7 +524,7 @@ func runC18(c *wk.Ctx) {
 	for hno := int64(0); hno < nHist; hno++ {
 		r := c.Rand("c18h", hno)
 		ops := c18History(r, 14)
-		d := &dhcpRun{c: c, idx: 900_000_000 + hno, ops: ops, net: nets[int(hno)%len(nets)], mode: dhcp4_spoofer.ModePrimaryServer, real: real, dns: netip.MustParseAddr("9.9.9.9")}
+		d := &dhcpRun{c: c, idx: 900_000_000 + hno, ops: ops, net: dhcpNetFor(nets, hno), mode: dhcp4_spoofer.ModePrimaryServer, real: real, dns: netip.MustParseAddr("9.9.9.9")}
 		var last []byte
 		d.afterAck = func(step int, file string, m *mon.DHCPMon) {
 			if b, err := os.ReadFile(file); err == nil && !bytes.Equal(b, last) {
